@@ -27,6 +27,45 @@ func isTakeCall(c *ssa.CallCommon) bool {
 	return m != nil && m.Name() == "Take" && c.Signature().Params().Len() == 0
 }
 
+// chargeHelpers: functions that do nothing but charge the limiter once - one block whose only call is
+// limiter.Take(), no result, no other effect (e.g. a `wait()` method of an embedded gate). A call of such a
+// helper is a Take for the wrapper rules; the helper itself is not a wrapper.
+var chargeHelpers map[*ssa.Function]bool
+
+func computeChargeHelpers(p *Prog) {
+	chargeHelpers = map[*ssa.Function]bool{}
+	for _, fn := range p.SrcFuncs() {
+		if len(fn.Blocks) != 1 || fn.Signature.Results().Len() != 0 || fn.Parent() != nil {
+			continue
+		}
+		nTake, pure := 0, true
+		for _, in := range fn.Blocks[0].Instrs {
+			switch t := in.(type) {
+			case *ssa.Call:
+				if isTakeCall(&t.Call) {
+					nTake++
+				} else {
+					pure = false
+				}
+			case *ssa.Store, *ssa.Go, *ssa.Defer, *ssa.Send, *ssa.MapUpdate:
+				pure = false
+			}
+		}
+		if nTake == 1 && pure {
+			chargeHelpers[fn] = true
+		}
+	}
+}
+
+// takeLike: a Take call, or a call of a charge helper.
+func takeLike(c *ssa.CallCommon) bool {
+	if isTakeCall(c) {
+		return true
+	}
+	f := StaticCallee(c)
+	return f != nil && chargeHelpers[f]
+}
+
 func runC15(p *Prog, r *Report) {
 	r.Min("C15.R6", 5)
 	r.Min("C15.R7", 3)
@@ -69,11 +108,15 @@ func runC15(p *Prog, r *Report) {
 	// wrappers: repo methods calling Take
 	var wrappers []*ssa.Function
 	var takeCallers []string
+	computeChargeHelpers(p)
 	for _, fn := range p.SrcFuncs() {
+		if chargeHelpers[fn] {
+			continue // represented by its callers
+		}
 		calls := false
 		for _, b := range fn.Blocks {
 			for _, in := range b.Instrs {
-				if ci, ok := in.(ssa.CallInstruction); ok && isTakeCall(ci.Common()) {
+				if ci, ok := in.(ssa.CallInstruction); ok && takeLike(ci.Common()) {
 					calls = true
 				}
 			}
@@ -202,13 +245,13 @@ func checkLimiterWrapper(p *Prog, r *Report, fn *ssa.Function) {
 		n++
 		var takes, dels []*Event
 		for _, e := range s.Events {
-			if (e.Kind == EvDefer || e.Kind == EvGo) && isTakeCall(e.Call) {
+			if (e.Kind == EvDefer || e.Kind == EvGo) && takeLike(e.Call) {
 				ok, detail = false, "Take is deferred/asynchronous: the probe leaves before it is charged"
 			}
 			if e.Kind != EvCall {
 				continue
 			}
-			if isTakeCall(e.Call) {
+			if takeLike(e.Call) {
 				takes = append(takes, e)
 			} else if m := IfaceMethod(e.Call); m != nil && m.Name() == fn.Name() {
 				dels = append(dels, e)
